@@ -18,6 +18,16 @@
      ui_json/utils.path2workspace      Workspace(path, mode="r"); close()
      ui_json/utils.monitored_directory_copy   with fetch_active_workspace(entity.workspace, mode="r"): copy into a fresh workspace
 
+   SCOPE.  Not modelled: (1) the external `h5repack` step that close() runs after File.close() when `repack` is set on a writable
+   path-backed workspace (`unlink` of the file, then `shutil.move` of the tool's output): with a tool that exits 0 without
+   writing its output, or a move that fails after the unlink, NO file is left and close() raises -- reachable only with an
+   h5repack on PATH (absent in this sandbox; probed with a stand-in), an external-tool failure outside C11's quantifier;
+   (2) which file the workspace points at: a successful save_as switches `_h5file` to the copy (bytes identical, so the
+   model keeps the same log); the two places where save_as can fail relative to that re-pointing are modelled separately in
+   [save_as_detail] at the end of this file, and [SaveAsFail] is its CodeOrder case (pointer still valid, so [open_] may stay total);
+   (3) the number of Concatenator groups is constant per run.  `repack` is reset by close only after a writable session of a
+   path-backed workspace ([in_mem] = false); a BytesIO workspace keeps it.
+
    The file is abstract: the log of H5Writer routines that ran on it (only writer routines can change it; h5py enforces this for a
    handle opened "r" -- trusted).  A public operation is the sequence of _io_call's it issues (taken from the extracted table
    T_iocalls and from the run-time trace, see tools/props/c10.py).                                                             *)
@@ -143,17 +153,21 @@ Record world := {
   locked : bool;             (* h5py.File(path, writable mode) raises OSError (file held elsewhere / not writable) *)
   close_fault : bool;        (* environment: the final save inside close() raises *)
   repack : bool;             (* Workspace._repack *)
-  ncat : nat                 (* number of live Concatenator groups (each is refreshed by close under repack) *)
+  ncat : nat;                (* number of live Concatenator groups (each is refreshed by close under repack) *)
+  in_mem : bool              (* Workspace._h5file is a BytesIO buffer (until a successful save_as) *)
 }.
 Definition set_handle (w : world) (h : handle) : world :=
   {| handle_of := h; defmode := defmode w; file := file w; locked := locked w; close_fault := close_fault w;
-     repack := repack w; ncat := ncat w |}.
+     repack := repack w; ncat := ncat w; in_mem := in_mem w |}.
 Definition set_repack (w : world) (b : bool) : world :=
   {| handle_of := handle_of w; defmode := defmode w; file := file w; locked := locked w; close_fault := close_fault w;
-     repack := b; ncat := ncat w |}.
+     repack := b; ncat := ncat w; in_mem := in_mem w |}.
+Definition set_in_mem (w : world) (b : bool) : world :=
+  {| handle_of := handle_of w; defmode := defmode w; file := file w; locked := locked w; close_fault := close_fault w;
+     repack := repack w; ncat := ncat w; in_mem := b |}.
 Definition log (w : world) (f : string) : world :=
   {| handle_of := handle_of w; defmode := defmode w; file := file w ++ [f]; locked := locked w; close_fault := close_fault w;
-     repack := repack w; ncat := ncat w |}.
+     repack := repack w; ncat := ncat w; in_mem := in_mem w |}.
 
 (* Workspace._io_call *)
 Definition io_call (w : world) (c : iocall) : res world :=
@@ -195,7 +209,7 @@ Definition close_n (dead : nat) (w : world) : world * option err :=
   | Open m =>
       if writable m then
         match io_calls w (close_calls dead w) with
-        | (w', None) => (set_repack (set_handle w' Closed) false, None)
+        | (w', None) => (set_repack (set_handle w' Closed) (repack w' && in_mem w'), None)   (* reset unless BytesIO *)
         | (w', Some e) => (w', Some e)             (* File.close() is not reached *)
         end
       else (set_handle w Closed, None)          (* repack is reset only after a writable session *)
@@ -267,7 +281,7 @@ Definition step (w : world) (o : op) : world * option err :=
   | Close => close w
   | OpenM m => open_ m w
   | FetchActive req body => fetch_active req body w
-  | SaveAs => seq (close w) (open_ None)
+  | SaveAs => seq (close w) (fun w1 => open_ None (set_in_mem w1 false))   (* _h5file := the copy on disk *)
   | Path2Workspace => (w, None)                  (* a separate Workspace object on mode "r": never touches this handle *)
   | MonitoredCopy body => fetch_active R body w
   | CallsThenRaise cs => match io_calls w cs with
@@ -334,25 +348,59 @@ Definition outcomes_eqb := list_eqb oerr_eqb.
 (* C10 single/sequence case: from Open R (workspace built with mode "r"), run [ops]; observed: per-op outcomes, final handle,
    whether the file changed (hash), and every call's static site *)
 Definition w_init (h : handle) (dm : mode) (lk : bool) (nc : nat) : world :=
-  {| handle_of := h; defmode := dm; file := []; locked := lk; close_fault := false; repack := false; ncat := nc |}.
+  {| handle_of := h; defmode := dm; file := []; locked := lk; close_fault := false; repack := false; ncat := nc; in_mem := false |}.
 
-Definition agree_run (h : handle) (dm : mode) (lk : bool) (nc : nat) (ops : list op)
+Definition agree_run_m (im : bool) (h : handle) (dm : mode) (lk : bool) (nc : nat) (ops : list op)
            (obs_out : list (option err)) (obs_handles : list handle) (obs_log : list string) : bool :=
   let fix go (ops : list op) (w : world) : list (option err) * list handle * world :=
       match ops with
       | [] => ([], [], w)
       | o :: r => let '(w1, e) := step w o in let '(es, hs, w2) := go r w1 in (e :: es, handle_of w1 :: hs, w2)
       end in
-  let '(es, hs, wf) := go ops (w_init h dm lk nc) in
+  let '(es, hs, wf) := go ops (set_in_mem (w_init h dm lk nc) im) in
   outcomes_eqb es obs_out && list_eqb handle_eqb hs obs_handles && list_eqb String.eqb (file wf) obs_log.
+
+Definition agree_run := agree_run_m false.
 
 (* every traced call sits at a table row (file, line range, routine, literal mode) *)
 Definition sites_ok (t : list row) (l : list (string * N * iocall)) : bool :=
   forallb (fun x => let '(f, n, c) := x in site_in_table t f n c) l.
 
 (* C11 case: with-block with an exception after k ops *)
-Definition agree_with (h : handle) (dm : mode) (fault : bool) (nc : nat) (ops : list op) (k : nat)
+Definition agree_with_m (im : bool) (h : handle) (dm : mode) (fault : bool) (nc : nat) (ops : list op) (k : nat)
            (obs_exc : option err) (obs_handle : handle) (obs_log : list string) : bool :=
-  let w0 := {| handle_of := h; defmode := dm; file := []; locked := false; close_fault := fault; repack := false; ncat := nc |} in
+  let w0 := {| handle_of := h; defmode := dm; file := []; locked := false; close_fault := fault; repack := false; ncat := nc;
+               in_mem := im |} in
   let '(w1, e) := with_block ops k w0 in
   oerr_eqb e obs_exc && handle_eqb (handle_of w1) obs_handle && list_eqb String.eqb (file w1) obs_log.
+Definition agree_with := agree_with_m false.
+
+(* ------------------------------------------------------------------ Workspace.save_as in detail: where it can fail *)
+(* save_as: close(); [checks: suffix, target exists] ; [copy: open(target,"wb")/shutil.copy] ; _h5file := target ; open().
+   sa_ptr = "_h5file names a file or buffer that exists and holds the content".  The code re-points _h5file AFTER the copy
+   (CodeOrder); RepointFirst is the variant that re-points before the copy (what a careless refactoring does). *)
+Inductive sa_fail := FailChecks | FailCopy.
+Inductive sa_variant := CodeOrder | RepointFirst.
+Record sa_state := { sa_handle : handle; sa_ptr : bool }.
+Definition save_as_detail (v : sa_variant) (f : option sa_fail) (s : sa_state) : sa_state * option err :=
+  let closed := {| sa_handle := Closed; sa_ptr := sa_ptr s |} in
+  match f with
+  | Some FailChecks => (closed, Some EFail)
+  | Some FailCopy =>
+      match v with
+      | CodeOrder => (closed, Some EFail)
+      | RepointFirst => ({| sa_handle := Closed; sa_ptr := false |}, Some EFail)   (* points at a file that was never written *)
+      end
+  | None => if sa_ptr s then ({| sa_handle := Open RW; sa_ptr := true |}, None) else (closed, Some EFail)
+  end.
+(* open(): h5py.File on a missing file raises (also in the "r" fallback) *)
+Definition sa_open (s : sa_state) : sa_state * option err :=
+  match sa_handle s with
+  | Open _ => (s, None)
+  | Closed => if sa_ptr s then ({| sa_handle := Open RW; sa_ptr := true |}, None) else (s, Some EFail)
+  end.
+(* correspondence: pointer validity observed after a failing save_as *)
+Definition agree_sa (f : sa_fail) (obs_ptr_valid obs_reopen_ok : bool) : bool :=
+  let s1 := fst (save_as_detail CodeOrder (Some f) {| sa_handle := Open RW; sa_ptr := true |}) in
+  Bool.eqb (sa_ptr s1) obs_ptr_valid
+  && Bool.eqb (match snd (sa_open s1) with None => true | Some _ => false end) obs_reopen_ok.
